@@ -1,0 +1,164 @@
+//go:build verif
+
+package parser
+
+// Contracts for the deductive verifier in /verif (comments only).
+// The syntax tree handed to these functions is built by participle from the
+// grammar annotations in grammar.go. What participle guarantees about a tree it
+// returns without error (captures marked @@ without '?' are non-nil, elements of
+// repeated captures are non-nil) is ASSUMED ("assumes" clauses), never required
+// from callers: the trees come from the library, not from user code.
+
+// ---------------------------------------------------------------------------
+// terms
+
+//@ func (a *Term) ToBiscuit(parameters ParametersMap) (res biscuit.Term, err error)
+//@ serves C10 C14
+//@ requires a != nil
+//@ assumes forall j int :: { a.Set[j] } 0 <= j && j < len(a.Set) ==> a.Set[j] != nil
+//@ modifies nothing
+//@ loop 0 invariant len(biscuitSet) == #i && cap(biscuitSet) == len(a.Set) && fresh(arr(biscuitSet)) && off(biscuitSet) == 0
+//@ loop 0 invariant elems: forall k int :: { biscuitSet[k] } 0 <= k && k < len(biscuitSet) ==> biscuitSet[k] != nil && !(biscuitSet[k] is biscuit.Variable)
+//@ ensures value_or_error: (err == nil) == (res != nil)
+//@ ensures integer: a.Integer != nil ==> err == nil && res is biscuit.Integer && res.(biscuit.Integer) == *a.Integer
+//@ ensures str: a.Integer == nil && a.String != nil ==> err == nil && res is biscuit.String && res.(biscuit.String) == *a.String
+//@ ensures variable: a.Integer == nil && a.String == nil && a.Variable != nil ==> err == nil && res is biscuit.Variable && res.(biscuit.Variable) == *a.Variable
+//@ ensures boolean: a.Integer == nil && a.String == nil && a.Variable == nil && a.Date == nil && a.Bytes == nil && a.Bool != nil ==> err == nil && res is biscuit.Bool && res.(biscuit.Bool) == *a.Bool
+//@ ensures set: a.Integer == nil && a.String == nil && a.Variable == nil && a.Date == nil && a.Bytes == nil && a.Bool == nil && a.Set != nil && err == nil ==> res is biscuit.Set && len(res.(biscuit.Set)) == len(a.Set) && (forall k int :: { res.(biscuit.Set)[k] } 0 <= k && k < len(a.Set) ==> res.(biscuit.Set)[k] != nil && !(res.(biscuit.Set)[k] is biscuit.Variable))
+//@ ensures parameter_bound: a.Integer == nil && a.String == nil && a.Variable == nil && a.Date == nil && a.Bytes == nil && a.Bool == nil && a.Set == nil && a.Parameter != nil && has(parameters, *a.Parameter) && parameters[*a.Parameter] != nil ==> err == nil && res == parameters[*a.Parameter]
+//@ ensures parameter_unbound: a.Integer == nil && a.String == nil && a.Variable == nil && a.Date == nil && a.Bytes == nil && a.Bool == nil && a.Set == nil && a.Parameter != nil && parameters[*a.Parameter] == nil ==> err != nil
+//@ ensures nothing_set: a.Integer == nil && a.String == nil && a.Variable == nil && a.Date == nil && a.Bytes == nil && a.Bool == nil && a.Set == nil && a.Parameter == nil ==> err != nil
+
+// ---------------------------------------------------------------------------
+// expressions: the tree is flattened to postfix order by appending to *expr.
+// Every method only appends (the prefix of *expr is kept) and every appended
+// element is a well-formed operation.
+
+//@ func (e *Expression) ToExpr(expr *biscuit.Expression, parameters ParametersMap)
+//@ serves C10 C14
+//@ requires e != nil && expr != nil
+//@ assumes e.Left != nil && (forall j int :: { e.Right[j] } 0 <= j && j < len(e.Right) ==> e.Right[j] != nil)
+//@ modifies *expr, spare(*expr)
+//@ loop 0 invariant len(*expr) >= old(len(*expr)) && ((arr(*expr) == old(arr(*expr)) && off(*expr) == old(off(*expr)) && cap(*expr) == old(cap(*expr))) || fresh(arr(*expr))) && (forall k int :: { (*expr)[k] } 0 <= k && k < old(len(*expr)) ==> (*expr)[k] == old((*expr)[k])) && (forall k int :: { (*expr)[k] } old(len(*expr)) <= k && k < len(*expr) ==> bOpWF((*expr)[k]))
+//@ ensures appends_only: len(*expr) >= old(len(*expr)) && ((arr(*expr) == old(arr(*expr)) && off(*expr) == old(off(*expr)) && cap(*expr) == old(cap(*expr))) || fresh(arr(*expr))) && (forall k int :: { (*expr)[k] } 0 <= k && k < old(len(*expr)) ==> (*expr)[k] == old((*expr)[k]))
+//@ ensures appended_ops_wf: forall k int :: { (*expr)[k] } old(len(*expr)) <= k && k < len(*expr) ==> bOpWF((*expr)[k])
+
+//@ func (e *Expr1) ToExpr(expr *biscuit.Expression, parameters ParametersMap)
+//@ serves C10 C14
+//@ requires e != nil && expr != nil
+//@ assumes e.Left != nil && (forall j int :: { e.Right[j] } 0 <= j && j < len(e.Right) ==> e.Right[j] != nil)
+//@ modifies *expr, spare(*expr)
+//@ loop 0 invariant len(*expr) >= old(len(*expr)) && ((arr(*expr) == old(arr(*expr)) && off(*expr) == old(off(*expr)) && cap(*expr) == old(cap(*expr))) || fresh(arr(*expr))) && (forall k int :: { (*expr)[k] } 0 <= k && k < old(len(*expr)) ==> (*expr)[k] == old((*expr)[k])) && (forall k int :: { (*expr)[k] } old(len(*expr)) <= k && k < len(*expr) ==> bOpWF((*expr)[k]))
+//@ ensures appends_only: len(*expr) >= old(len(*expr)) && ((arr(*expr) == old(arr(*expr)) && off(*expr) == old(off(*expr)) && cap(*expr) == old(cap(*expr))) || fresh(arr(*expr))) && (forall k int :: { (*expr)[k] } 0 <= k && k < old(len(*expr)) ==> (*expr)[k] == old((*expr)[k]))
+//@ ensures appended_ops_wf: forall k int :: { (*expr)[k] } old(len(*expr)) <= k && k < len(*expr) ==> bOpWF((*expr)[k])
+
+//@ func (e *Expr2) ToExpr(expr *biscuit.Expression, parameters ParametersMap)
+//@ serves C10 C14
+//@ requires e != nil && expr != nil
+//@ assumes e.Left != nil
+//@ modifies *expr, spare(*expr)
+//@ ensures appends_only: len(*expr) >= old(len(*expr)) && ((arr(*expr) == old(arr(*expr)) && off(*expr) == old(off(*expr)) && cap(*expr) == old(cap(*expr))) || fresh(arr(*expr))) && (forall k int :: { (*expr)[k] } 0 <= k && k < old(len(*expr)) ==> (*expr)[k] == old((*expr)[k]))
+//@ ensures appended_ops_wf: forall k int :: { (*expr)[k] } old(len(*expr)) <= k && k < len(*expr) ==> bOpWF((*expr)[k])
+
+//@ func (e *Expr3) ToExpr(expr *biscuit.Expression, parameters ParametersMap)
+//@ serves C10 C14
+//@ requires e != nil && expr != nil
+//@ assumes e.Left != nil && (forall j int :: { e.Right[j] } 0 <= j && j < len(e.Right) ==> e.Right[j] != nil)
+//@ modifies *expr, spare(*expr)
+//@ loop 0 invariant len(*expr) >= old(len(*expr)) && ((arr(*expr) == old(arr(*expr)) && off(*expr) == old(off(*expr)) && cap(*expr) == old(cap(*expr))) || fresh(arr(*expr))) && (forall k int :: { (*expr)[k] } 0 <= k && k < old(len(*expr)) ==> (*expr)[k] == old((*expr)[k])) && (forall k int :: { (*expr)[k] } old(len(*expr)) <= k && k < len(*expr) ==> bOpWF((*expr)[k]))
+//@ ensures appends_only: len(*expr) >= old(len(*expr)) && ((arr(*expr) == old(arr(*expr)) && off(*expr) == old(off(*expr)) && cap(*expr) == old(cap(*expr))) || fresh(arr(*expr))) && (forall k int :: { (*expr)[k] } 0 <= k && k < old(len(*expr)) ==> (*expr)[k] == old((*expr)[k]))
+//@ ensures appended_ops_wf: forall k int :: { (*expr)[k] } old(len(*expr)) <= k && k < len(*expr) ==> bOpWF((*expr)[k])
+
+//@ func (e *Expr4) ToExpr(expr *biscuit.Expression, parameters ParametersMap)
+//@ serves C10 C14
+//@ requires e != nil && expr != nil
+//@ assumes e.Left != nil && (forall j int :: { e.Right[j] } 0 <= j && j < len(e.Right) ==> e.Right[j] != nil)
+//@ modifies *expr, spare(*expr)
+//@ loop 0 invariant len(*expr) >= old(len(*expr)) && ((arr(*expr) == old(arr(*expr)) && off(*expr) == old(off(*expr)) && cap(*expr) == old(cap(*expr))) || fresh(arr(*expr))) && (forall k int :: { (*expr)[k] } 0 <= k && k < old(len(*expr)) ==> (*expr)[k] == old((*expr)[k])) && (forall k int :: { (*expr)[k] } old(len(*expr)) <= k && k < len(*expr) ==> bOpWF((*expr)[k]))
+//@ ensures appends_only: len(*expr) >= old(len(*expr)) && ((arr(*expr) == old(arr(*expr)) && off(*expr) == old(off(*expr)) && cap(*expr) == old(cap(*expr))) || fresh(arr(*expr))) && (forall k int :: { (*expr)[k] } 0 <= k && k < old(len(*expr)) ==> (*expr)[k] == old((*expr)[k]))
+//@ ensures appended_ops_wf: forall k int :: { (*expr)[k] } old(len(*expr)) <= k && k < len(*expr) ==> bOpWF((*expr)[k])
+
+//@ func (e *Expr5) ToExpr(expr *biscuit.Expression, parameters ParametersMap)
+//@ serves C10 C14
+//@ requires e != nil && expr != nil
+//@ assumes e.Expr6 != nil
+//@ modifies *expr, spare(*expr)
+//@ ensures appends_only: len(*expr) >= old(len(*expr)) && ((arr(*expr) == old(arr(*expr)) && off(*expr) == old(off(*expr)) && cap(*expr) == old(cap(*expr))) || fresh(arr(*expr))) && (forall k int :: { (*expr)[k] } 0 <= k && k < old(len(*expr)) ==> (*expr)[k] == old((*expr)[k]))
+//@ ensures appended_ops_wf: forall k int :: { (*expr)[k] } old(len(*expr)) <= k && k < len(*expr) ==> bOpWF((*expr)[k])
+//@ ensures negation_last: e.Operator != nil ==> len(*expr) > old(len(*expr)) && (*expr)[len(*expr)-1] is biscuit.UnaryOp && (*expr)[len(*expr)-1].(biscuit.UnaryOp) == biscuit.UnaryNegate
+
+//@ func (e *Expr6) ToExpr(expr *biscuit.Expression, parameters ParametersMap)
+//@ serves C10 C14
+//@ requires e != nil && expr != nil
+//@ assumes e.Left != nil && (forall j int :: { e.Right[j] } 0 <= j && j < len(e.Right) ==> e.Right[j] != nil)
+//@ modifies *expr, spare(*expr)
+//@ loop 0 invariant len(*expr) >= old(len(*expr)) && ((arr(*expr) == old(arr(*expr)) && off(*expr) == old(off(*expr)) && cap(*expr) == old(cap(*expr))) || fresh(arr(*expr))) && (forall k int :: { (*expr)[k] } 0 <= k && k < old(len(*expr)) ==> (*expr)[k] == old((*expr)[k])) && (forall k int :: { (*expr)[k] } old(len(*expr)) <= k && k < len(*expr) ==> bOpWF((*expr)[k]))
+//@ ensures appends_only: len(*expr) >= old(len(*expr)) && ((arr(*expr) == old(arr(*expr)) && off(*expr) == old(off(*expr)) && cap(*expr) == old(cap(*expr))) || fresh(arr(*expr))) && (forall k int :: { (*expr)[k] } 0 <= k && k < old(len(*expr)) ==> (*expr)[k] == old((*expr)[k]))
+//@ ensures appended_ops_wf: forall k int :: { (*expr)[k] } old(len(*expr)) <= k && k < len(*expr) ==> bOpWF((*expr)[k])
+
+//@ func (e *ExprTerm) ToExpr(expr *biscuit.Expression, parameters ParametersMap)
+//@ serves C10 C14
+//@ requires e != nil && expr != nil
+//@ modifies *expr, spare(*expr)
+//@ ensures appends_only: len(*expr) >= old(len(*expr)) && ((arr(*expr) == old(arr(*expr)) && off(*expr) == old(off(*expr)) && cap(*expr) == old(cap(*expr))) || fresh(arr(*expr))) && (forall k int :: { (*expr)[k] } 0 <= k && k < old(len(*expr)) ==> (*expr)[k] == old((*expr)[k]))
+//@ ensures appended_ops_wf: forall k int :: { (*expr)[k] } old(len(*expr)) <= k && k < len(*expr) ==> bOpWF((*expr)[k])
+//@ ensures parens_last: e.Term == nil && e.Expression != nil ==> len(*expr) > old(len(*expr)) && (*expr)[len(*expr)-1] is biscuit.UnaryOp && (*expr)[len(*expr)-1].(biscuit.UnaryOp) == biscuit.UnaryParens
+//@ ensures value: e.Term != nil ==> len(*expr) == old(len(*expr)) + 1 && (*expr)[len(*expr)-1] is biscuit.Value
+
+//@ func (e *OpExpr1) ToExpr(expr *biscuit.Expression, parameters ParametersMap)
+//@ serves C10 C14
+//@ requires e != nil && expr != nil
+//@ assumes e.Operator == OpOr && e.Expr1 != nil
+//@ modifies *expr, spare(*expr)
+//@ ensures appends_only: len(*expr) >= old(len(*expr)) && ((arr(*expr) == old(arr(*expr)) && off(*expr) == old(off(*expr)) && cap(*expr) == old(cap(*expr))) || fresh(arr(*expr))) && (forall k int :: { (*expr)[k] } 0 <= k && k < old(len(*expr)) ==> (*expr)[k] == old((*expr)[k]))
+//@ ensures appended_ops_wf: forall k int :: { (*expr)[k] } old(len(*expr)) <= k && k < len(*expr) ==> bOpWF((*expr)[k])
+//@ ensures operator_last: len(*expr) > old(len(*expr)) && isOpOf((*expr)[len(*expr)-1], e.Operator)
+
+//@ func (e *OpExpr2) ToExpr(expr *biscuit.Expression, parameters ParametersMap)
+//@ serves C10 C14
+//@ requires e != nil && expr != nil
+//@ assumes e.Operator == OpAnd && e.Expr2 != nil
+//@ modifies *expr, spare(*expr)
+//@ ensures appends_only: len(*expr) >= old(len(*expr)) && ((arr(*expr) == old(arr(*expr)) && off(*expr) == old(off(*expr)) && cap(*expr) == old(cap(*expr))) || fresh(arr(*expr))) && (forall k int :: { (*expr)[k] } 0 <= k && k < old(len(*expr)) ==> (*expr)[k] == old((*expr)[k]))
+//@ ensures appended_ops_wf: forall k int :: { (*expr)[k] } old(len(*expr)) <= k && k < len(*expr) ==> bOpWF((*expr)[k])
+//@ ensures operator_last: len(*expr) > old(len(*expr)) && isOpOf((*expr)[len(*expr)-1], e.Operator)
+
+//@ func (e *OpExpr3) ToExpr(expr *biscuit.Expression, parameters ParametersMap)
+//@ serves C10 C14
+//@ requires e != nil && expr != nil
+//@ assumes opLevel3(e.Operator) && e.Expr3 != nil
+//@ modifies *expr, spare(*expr)
+//@ ensures appends_only: len(*expr) >= old(len(*expr)) && ((arr(*expr) == old(arr(*expr)) && off(*expr) == old(off(*expr)) && cap(*expr) == old(cap(*expr))) || fresh(arr(*expr))) && (forall k int :: { (*expr)[k] } 0 <= k && k < old(len(*expr)) ==> (*expr)[k] == old((*expr)[k]))
+//@ ensures appended_ops_wf: forall k int :: { (*expr)[k] } old(len(*expr)) <= k && k < len(*expr) ==> bOpWF((*expr)[k])
+//@ ensures operator_last: len(*expr) > old(len(*expr)) && isOpOf((*expr)[len(*expr)-1], e.Operator)
+
+//@ func (e *OpExpr4) ToExpr(expr *biscuit.Expression, parameters ParametersMap)
+//@ serves C10 C14
+//@ requires e != nil && expr != nil
+//@ assumes (e.Operator == OpAdd || e.Operator == OpSub) && e.Expr4 != nil
+//@ modifies *expr, spare(*expr)
+//@ ensures appends_only: len(*expr) >= old(len(*expr)) && ((arr(*expr) == old(arr(*expr)) && off(*expr) == old(off(*expr)) && cap(*expr) == old(cap(*expr))) || fresh(arr(*expr))) && (forall k int :: { (*expr)[k] } 0 <= k && k < old(len(*expr)) ==> (*expr)[k] == old((*expr)[k]))
+//@ ensures appended_ops_wf: forall k int :: { (*expr)[k] } old(len(*expr)) <= k && k < len(*expr) ==> bOpWF((*expr)[k])
+//@ ensures operator_last: len(*expr) > old(len(*expr)) && isOpOf((*expr)[len(*expr)-1], e.Operator)
+
+//@ func (e *OpExpr5) ToExpr(expr *biscuit.Expression, parameters ParametersMap)
+//@ serves C10 C14
+//@ requires e != nil && expr != nil
+//@ assumes (e.Operator == OpMul || e.Operator == OpDiv) && e.Expr5 != nil
+//@ modifies *expr, spare(*expr)
+//@ ensures appends_only: len(*expr) >= old(len(*expr)) && ((arr(*expr) == old(arr(*expr)) && off(*expr) == old(off(*expr)) && cap(*expr) == old(cap(*expr))) || fresh(arr(*expr))) && (forall k int :: { (*expr)[k] } 0 <= k && k < old(len(*expr)) ==> (*expr)[k] == old((*expr)[k]))
+//@ ensures appended_ops_wf: forall k int :: { (*expr)[k] } old(len(*expr)) <= k && k < len(*expr) ==> bOpWF((*expr)[k])
+//@ ensures operator_last: len(*expr) > old(len(*expr)) && isOpOf((*expr)[len(*expr)-1], e.Operator)
+
+//@ func (e *OpExpr7) ToExpr(expr *biscuit.Expression, parameters ParametersMap)
+//@ serves C10 C14
+//@ requires e != nil && expr != nil
+//@ assumes opLevel7(e.Operator)
+//@ modifies *expr, spare(*expr)
+//@ ensures appends_only: len(*expr) >= old(len(*expr)) && ((arr(*expr) == old(arr(*expr)) && off(*expr) == old(off(*expr)) && cap(*expr) == old(cap(*expr))) || fresh(arr(*expr))) && (forall k int :: { (*expr)[k] } 0 <= k && k < old(len(*expr)) ==> (*expr)[k] == old((*expr)[k]))
+//@ ensures appended_ops_wf: forall k int :: { (*expr)[k] } old(len(*expr)) <= k && k < len(*expr) ==> bOpWF((*expr)[k])
+//@ ensures operator_last: len(*expr) > old(len(*expr)) && isOpOf((*expr)[len(*expr)-1], e.Operator)
+
+// (*Operator).ToExpr has no contract of its own: it is called on a field of the
+// node (an interior pointer) and is inlined at each of its six call sites, where
+// the operator table isOpOf is proved for the operators that level can capture.
